@@ -3,6 +3,7 @@
 package obfs4
 
 import (
+	"gitlab.com/yawning/obfs4.git/common/replayfilter"
 	"bytes"
 	"net"
 
@@ -65,6 +66,14 @@ func VerifCloseDelay(sf any) (int, bool) {
 func VerifLenDist(c net.Conn) *probdist.WeightedDist {
 	if oc, ok := c.(*obfs4Conn); ok {
 		return oc.lenDist
+	}
+	return nil
+}
+
+// VerifReplayFilter returns the server factory's replay filter.
+func VerifReplayFilter(sf any) *replayfilter.ReplayFilter {
+	if f, ok := sf.(*obfs4ServerFactory); ok {
+		return f.replayFilter
 	}
 	return nil
 }
